@@ -685,3 +685,59 @@ Proof.
   split; [exact R|]. rewrite R. rewrite Forall_forall. intros l Hl. apply filter_In in Hl. destruct Hl as [Hin Hu].
   apply (Iff l Hin). exact Hu.
 Qed.
+
+(* ------------------------------------------------------------ stripping space bytes keeps a line well-formed *)
+(* every byte util/spaces.cc calls a space is ASCII: it can never be part of a multi-byte sequence *)
+Lemma space_bytes_ascii : forallb (fun b => (0 <=? b) && (b <? 128)) space_bytes = true.
+Proof. vm_compute. reflexivity. Qed.
+
+Lemma is_space_byte_ascii b : is_space_byte b = true -> 0 <= b < 128.
+Proof.
+  unfold is_space_byte. rewrite existsb_exists. intros (x & Hin & E). apply Z.eqb_eq in E. subst x.
+  pose proof (proj1 (forallb_forall _ _) space_bytes_ascii b Hin) as A. lia.
+Qed.
+
+Lemma WF_seq_single_or_trail s : WF_seq s -> (exists b0, s = [b0]) \/ 128 <= last s 0.
+Proof. intros W. destruct W; unfold rng in *; [left; eauto|right; cbn [last]; lia ..]. Qed.
+
+Lemma WF_seq_last_ascii s b l : WF_seq s -> s = l ++ [b] -> b < 128 -> l = [].
+Proof.
+  intros W E Hb. destruct (WF_seq_single_or_trail s W) as [[b0 E0]|L].
+  - rewrite E0 in E. destruct l as [|x l]; [reflexivity|]. destruct l; discriminate.
+  - rewrite E, last_last in L. lia.
+Qed.
+
+Lemma wellformed_drop_first b r : WellFormed (b :: r) -> b < 128 -> WellFormed r.
+Proof.
+  intros W Hb. inversion W as [|s r' Ws Wr E].
+  destruct Ws; unfold rng in *; simpl in E; injection E; intros; subst; try lia. exact Wr.
+Qed.
+
+Lemma wellformed_drop_last : forall x, WellFormed x -> forall l b, x = l ++ [b] -> b < 128 -> WellFormed l.
+Proof.
+  induction 1 as [|s r Ws Wr IH]; intros l b E Hb.
+  - destruct l; discriminate.
+  - destruct r as [|r0 rr] using rev_ind.
+    + rewrite app_nil_r in E. rewrite (WF_seq_last_ascii s b l Ws E Hb). constructor.
+    + clear IHrr. rewrite app_assoc in E. apply app_inj_tail in E. destruct E as [E1 E2]. subst.
+      apply WFS_app; [exact Ws|]. apply (IH rr b eq_refl Hb).
+Qed.
+
+Lemma drop_spaces_wellformed l : WellFormed l -> WellFormed (drop_spaces l).
+Proof.
+  induction l as [|b r IH]; intros W; [exact W|]. cbn [drop_spaces].
+  destruct (is_space_byte b) eqn:S; [|exact W].
+  apply IH. apply (wellformed_drop_first b r W). apply is_space_byte_ascii in S. lia.
+Qed.
+
+Lemma drop_spaces_rev_wellformed : forall m, WellFormed (rev m) -> WellFormed (rev (drop_spaces m)).
+Proof.
+  induction m as [|b r IH]; intros W; [exact W|]. cbn [drop_spaces].
+  destruct (is_space_byte b) eqn:S; [|exact W].
+  apply IH. cbn [rev] in W. apply (wellformed_drop_last _ W (rev r) b eq_refl). apply is_space_byte_ascii in S. lia.
+Qed.
+
+Theorem strip_spaces_wellformed_proof l : WellFormed l -> WellFormed (strip_spaces l).
+Proof.
+  intros W. unfold strip_spaces. apply drop_spaces_rev_wellformed. rewrite rev_involutive. apply drop_spaces_wellformed. exact W.
+Qed.
